@@ -24,7 +24,8 @@ import (
 var (
 	c11Names  = []string{"a", "b", "ab", "a-0", "a-b", "a.b", "0", "b-0"}
 	c11Owners = [][2]string{{"", ""}, {"StatefulSet", "app"}, {"ReplicaSet", "app-x"}, {"ReplicaSet", "app"}, {"TApp", "app"}, {"Job", "a-0"}, {"StatefulSet", "a.b"},
-		{"StatefulSetPlus", "app"}, {"ReplicaSetPlus", "app-x"}, {"TAppSet", "app"}} // kinds whose names start with a built-in kind
+		{"StatefulSetPlus", "app"}, {"ReplicaSetPlus", "app-x"}, {"TAppSet", "app"}, // kinds whose names start with a built-in kind
+		{"Deployment", "app"}, {"deployment", "app"}, {"statefulset", "app"}, {"StatefulSets", "app"}} // a pod owned by a deployment directly; other spellings of the built-in kinds
 	c11Pools = []string{"", "p", "p-1", "a.b"}
 )
 
